@@ -561,8 +561,15 @@ def arccosh(x, out=None, n=0):
 
 @basecase(np.arctanh, domain=DOM_ABS_LT_1)
 def arctanh(x, out=None, n=0):
-    out = np.add(np.power(1 - x, -float(n)), pow(-1, n-1) * np.power(x+1, -float(n)), out)
-    out *= 0.5 * math.factorial(n-1)
+    # (n-1)!/2 * [(1-x)^-n - (-1)^n (1+x)^-n] over the common denominator
+    # (1-x^2)^n: the numerator keeps the powers x^k with k = n-1 mod 2 only, so
+    # nothing cancels near x = 0 (the even orders are odd functions of x)
+    xf = np.asarray(x)
+    if xf.dtype.kind in 'iub':
+        xf = xf.astype(float)
+    num = sum(math.comb(n, k) * np.power(xf, k) for k in range((n-1) % 2, n+1, 2))
+    out = np.divide(num, np.power((1 - xf)*(1 + xf), n), out)
+    out *= math.factorial(n-1)
     return out
 
 
